@@ -1362,7 +1362,7 @@ def _parse_output_keys(result: dict, lit: LineIterator) -> dict:
             )
     for key in output_keys:
         if key not in result:
-            raise LoadError(f"QCSchema `qcschema_output` file requires '{key}' key", lit.filenam)
+            raise LoadError(f"QCSchema `qcschema_output` file requires '{key}' key", lit.filename)
 
     # Store all extra keys in extra_dict and gather at end
     output_dict = {}
